@@ -27,7 +27,7 @@ CLAIMS = {
         "design": "DESIGN.md section 4 C03",
     },
     "C04": {
-        "text": "Bounded symbolic check with sequentialised producers: a machine whose actions send to their own interpreter (plain send / raise) at 6 symbolically selected positions (entry during start(), exit, transition actions, choose branch, always action), single sends and send_events() batches of symbolic size; under virtual time two producers sending at symbolic instants next to an after-timer and a slow action of symbolic duration. Oracle over the bracket log opened by on_event_received: every accepted event processed exactly once, brackets never nest, per-sender order preserved, eventless follow-ups complete inside their bracket, raised events are handled after the current bracket. Both engines. (Bursts larger than maxIterations: see C13.) volume: n in {3, 40, 1100, 2100} external events with 0-2 raised follow-ups each, submitted as str / one re-used dict / fresh dicts / one re-used Event, one by one, as a batch or from two interleaved producers: each processed exactly once, no deadlock, payload intact.",
+        "text": "Bounded symbolic check with sequentialised producers: a machine whose actions send to their own interpreter (plain send / raise) at 6 symbolically selected positions (entry during start(), exit, transition actions, choose branch, always action), single sends and send_events() batches of symbolic size; under virtual time two producers sending at symbolic instants next to an after-timer and a slow action of symbolic duration. Oracle over the bracket log opened by on_event_received: every accepted event processed exactly once, brackets never nest, per-sender order preserved, eventless follow-ups complete inside their bracket, raised events are handled after the current bracket. Both engines. (Bursts larger than maxIterations: see C13.) start_raise: an entry action raising during start() (root / compound initial state / its child; built-in raise, raise with delay 0, user send()) is handled only after the whole initial entry. batch_fault: a faulty event at a symbolic position of a send_events batch loses nothing that follows. volume: n in {3, 40, 1100, 2100} external events with 0-2 raised follow-ups each, submitted as str / one re-used dict / fresh dicts / one re-used Event, one by one, as a batch or from two interleaved producers: each processed exactly once, no deadlock, payload intact.",
         "note": "NARROWER THAN THE STATEMENT: pre-emptive interleavings of two OS threads inside send()/_process_event_queue (check-then-set on the re-entrancy flag, lost wake-ups) are not covered - CrossHair executes one thread; producers are sequentialised and only WHERE/WHEN they send is symbolic. Trusts CrossHair/z3 and the virtual-time stubs.",
         "design": "DESIGN.md section 4 C04",
     },
@@ -37,12 +37,12 @@ CLAIMS = {
         "design": "DESIGN.md section 4 C13",
     },
     "C05": {
-        "text": "Bounded symbolic check: a feature machine (hierarchy, parallel, history incl. history targets from inside the parent, guards, assign/raise/choose/pure/enqueueActions, always, onDone, sync service, final output) is run on SyncInterpreter, on Interpreter (virtual-time loop, observed at quiescence) and through initial_transition/transition with the same symbolic events and guard outcomes; after every event configuration, context, status, output and the ordered action/marker traces with their triggering events are equal; one-step variant from every non-final configuration x recorded history; the pure functions run no user code and leave machine and snapshot unchanged; on skeletons with ambiguous keys every resolvable target spelling (symbolic string) leads both engines to the same configuration.",
+        "text": "Bounded symbolic check: a feature machine (hierarchy, parallel, history incl. history targets from inside the parent, guards, assign/raise/choose/pure/enqueueActions, always, onDone, sync service, final output) is run on SyncInterpreter, on Interpreter (virtual-time loop, observed at quiescence) and through initial_transition/transition with the same symbolic events and guard outcomes; after every event configuration, context, status, output and the ordered action/marker traces with their triggering events are equal; one-step variant from every non-final configuration x recorded history; the pure functions run no user code and leave machine and snapshot unchanged; one transition with symbolic source/target/reenter from every reachable pre-state of skeletons with parallel states and history yields the same configuration and the same ordered markers (with event and payload) on both engines; on skeletons with ambiguous keys every resolvable target spelling (symbolic string) leads both engines to the same configuration.",
         "note": "Trusts CrossHair/z3 and the virtual-time loop. One machine (FM, and FM without service for the pure API: the pure probe suppresses services by design); sequences of 2 (quick) / 3 events + the one-step variant. The synthetic init event handed to entry actions during start() is not compared (there is no triggering event).",
         "design": "DESIGN.md section 4 C05",
     },
     "C12": {
-        "text": "Bounded symbolic check (bisimulation step): from every constructed quiescent state of the feature machine (configuration x history x context) and from public runs cut after every event, snapshot -> from_snapshot (1-2 cycles; async start() resume) yields an interpreter equal in configuration, context, history, status, output, error, actors and systemIds, whose re-snapshot reproduces the snapshot, which is valid JSON and is not altered by later execution, and which agrees with the original on one more symbolic event; parent/child hierarchies with systemId (also after the parent completed); history skeletons; structurally corrupted snapshots (key x replacement symbolic) are rejected with a library error, unknown state ids with StateNotFoundError, non-JSON text with InvalidConfigError; a context machine whose actions delete declared keys, add keys, store falsy values and clear the context is cut at a symbolic position: the restored context equals the uninterrupted one exactly.",
+        "text": "Bounded symbolic check (bisimulation step): from every constructed quiescent state of the feature machine (configuration x history x context) and from public runs cut after every event, snapshot -> from_snapshot (1-2 cycles; async start() resume) yields an interpreter equal in configuration, context, history, status, output, error, actors and systemIds, whose re-snapshot reproduces the snapshot, which is valid JSON and is not altered by later execution, and which agrees with the original on one more symbolic event; parent/child hierarchies with systemId (also after the parent completed); history skeletons; structurally corrupted snapshots (key x replacement symbolic) are rejected with a library error, unknown state ids with StateNotFoundError, non-JSON text with InvalidConfigError; a cut in a terminal status (done with truthy / falsy output, done + stop(), error, error + stop(), stopped) reproduces status, output, error presence and the snapshot; a snapshot dict kept by the user is not changed by later execution; a context machine whose actions delete declared keys, add keys, store falsy values and clear the context is cut at a symbolic position: the restored context equals the uninterrupted one exactly.",
         "note": "Trusts CrossHair/z3; json encode/decode of concrete snapshots runs natively (common.native) because CrossHair's pure-Python json is pathologically slow - no symbolic value enters it. Corruption space = 9 keys x 13 replacements x 4 strings. Pending timers/in-flight services excepted as documented.",
         "design": "DESIGN.md section 4 C12",
     },
@@ -72,7 +72,7 @@ CLAIMS = {
         "design": "DESIGN.md section 4 C14",
     },
     "C10": {
-        "text": "Bounded symbolic check: one event from every stable configuration of a completion machine (3-region parallel state with history child, nested compound with its own onDone, targetless parallel onDone; also a variant with prefix-named regions) and symbolic event sequences from start(): onDone fires exactly when the independently recomputed doneness rises, never while a region is not final, done data = final state's output; top-level final: status done once, on_done once, machine-level output precedence (4 variants incl. falsy), later sends are no-ops, stop() still works; an id-less invoke on a compound with onDone never triggers that onDone; one event / one batch entering two top-level final states completes the machine once (on_done hook once, output not overwritten). Both engines.",
+        "text": "Bounded symbolic check: one event from every stable configuration of a completion machine (3-region parallel state with history child, nested compound with its own onDone, targetless parallel onDone; also a variant with prefix-named regions) and symbolic event sequences from start(): onDone fires exactly when the independently recomputed doneness rises, never while a region is not final, done data = final state's output; top-level final: status done once, on_done once, machine-level output precedence (4 variants incl. falsy), later sends are no-ops, stop() still works; a final state nested below the root (1-2 levels, or in every region) without onDone ancestors does not complete the machine; an id-less invoke on a compound with onDone never triggers that onDone; one event / one batch entering two top-level final states completes the machine once (on_done hook once, output not overwritten). Both engines.",
         "note": "Trusts CrossHair/z3 and done_ref in harness/c10.py. One fixed machine family (DM, DM2, TOP0-3), sequences <= 3 (quick) / 4; release of timers/services/actors by stop() after completion is C14's subject.",
         "design": "DESIGN.md section 4 C10",
     },
@@ -82,12 +82,12 @@ CLAIMS = {
         "design": "DESIGN.md section 4 C11",
     },
     "C18": {
-        "text": "Bounded symbolic check: re-spellings of a canonical config (transition string/object/list forms, always vs '' vs both, cond vs guard, action string/list/object, '100' vs 100, omitted initial; all combinations within feature groups) parse to the same deep fingerprint and trace; ANY target string (symbolic, bounded length) that the resolver maps from the source to the same node leads both engines to the same configuration; resolve_target_state is total (node of the machine or StateNotFoundError); unresolvable dotted/#-targets raise StateNotFoundError and change nothing; every single-point corruption (102 JSON subtrees x 12 replacements of another JSON type incl. the falsy ones; a wrong-typed target / guard / cond / src / initial must be rejected at creation) of a feature-rich config and 12 top-level forms are accepted consistently or rejected with an XStateMachineError - never a raw TypeError/AttributeError/KeyError/ValueError.",
-        "note": "Trusts CrossHair/z3 and the fingerprint in harness/c18.py. Corrupted configs are concrete after the symbolic (position, replacement) choice and are parsed/run natively inside the path. The 'silently something else' clause is checked for unresolvable targets only. Logic auto-discovery (LogicLoader) on malformed configs is C19's side.",
+        "text": "Bounded symbolic check: re-spellings of a canonical config (transition string/object/list forms, always vs '' vs both, cond vs guard, action string/list/object, '100' vs 100, omitted initial; all combinations within feature groups) parse to the same deep fingerprint and trace; ANY target string (symbolic, bounded length) that the resolver maps from the source to the same node leads both engines to the same configuration; resolve_target_state is total (node of the machine or StateNotFoundError); unresolvable dotted/#-targets raise StateNotFoundError and change nothing; every single-point corruption (102 JSON subtrees x 12 replacements of another JSON type incl. the falsy ones; a wrong-typed target / guard / cond / src / initial must be rejected at creation) of a feature-rich config 7 configs with duplicate or ambiguous ids are rejected; and 12 top-level forms are accepted consistently or rejected with an XStateMachineError - never a raw TypeError/AttributeError/KeyError/ValueError.",
+        "note": "Trusts CrossHair/z3 and the fingerprint in harness/c18.py. Corrupted configs are concrete after the symbolic (position, replacement) choice and are parsed/run natively inside the path. The 'silently something else' clause is checked for unresolvable targets, for wrong-typed target/guard/cond/src/initial values and for ambiguous ids. One known finding (a custom id equal to another state's path id is accepted). Logic auto-discovery (LogicLoader) on malformed configs is C19's side.",
         "design": "DESIGN.md section 4 C18",
     },
     "C15": {
-        "text": "Bounded symbolic check under a virtual clock: symbolic sequences of 18 actor operations (4 spawn forms incl. id re-use, generated ids and a non-blocking spawn; sendTo with a symbolic addressing form out of 8; two delayed sends with ids; cancel; stopChild; forwardTo; child->parent sendParent / id-less delayed sendParent / escalate; grandchild spawn with its own systemId and a grandchild->parent reply addressed by systemId; child completion; time; stop) on a parent machine with children and a grandchild, both engines: after every operation the children map and the system registry equal a reference registry, every message is delivered exactly once to exactly the actor the documented lookup order of _resolve_actor_target names (or nobody when unresolvable / ambiguous / stopped), in sending order per receiver; cancel removes that send only; after stopChild / stop() no descendant is running, registered or ticking and the parent hears nothing from stopped children.",
+        "text": "Bounded symbolic check under a virtual clock: symbolic sequences of 19 actor operations (4 spawn forms incl. id re-use, generated ids and a non-blocking spawn; sendTo with a symbolic addressing form out of 8; two delayed sends with ids; cancel; stopChild; forwardTo; child->parent sendParent / id-less delayed sendParent / escalate; grandchild spawn with its own systemId and a grandchild->parent reply addressed by systemId; child completion; time; stop) on a parent machine with children and a grandchild, both engines: after every operation the children map and the system registry equal a reference registry, every message is delivered exactly once to exactly the actor the documented lookup order of _resolve_actor_target names (or nobody when unresolvable / ambiguous / stopped), in sending order per receiver; cancel removes that send only; after stopChild / stop() no descendant is running, registered or ticking and the parent hears nothing from stopped children.",
         "note": "Trusts CrossHair/z3, the reference registry in harness/c15.py and the virtual-time stubs (sync polling runner = baton-passing coroutine on an OS thread). One machine family (PM/kid/gkid), sequences of 3-4 (quick) or 4-5 (thorough) operations, depth 2, fan-out <= 4. Under-specified cases (service-key fallback with several explicit-id children; finished child) are accepted either way.",
         "design": "DESIGN.md section 4 C15",
     },
